@@ -592,7 +592,20 @@ pub fn c14(ctx: &Ctx) -> ! {
             if let Some((fi2, fd)) = get("flatten") {
                 let fp = &corpus.modules[*fi2];
                 // (a self-referential outer type nests by-name shaped values of itself: the one-level merge below would not apply to them)
-                let self_ref = np.module.types[ti].all_fields().iter().any(|f| matches!(f.ty, TyExpr::SelfRef(_)));
+                let self_ref = np.module.types[ti].all_fields().iter().any(|f| matches!(f.ty, TyExpr::SelfRef(_)))
+                    // (the merged field is found through its type: it has to be the only field of that type)
+                    || match (&np.module.types[ti].body, pick_field(&np.module)) {
+                        (typegen::Body::Named(fs), Some((_, fi))) => {
+                            let mut mine = std::collections::BTreeSet::new();
+                            typegen::model::collect_users(&fs[fi].ty, &mut mine);
+                            fs.iter().enumerate().any(|(k, f)| {
+                                let mut other = std::collections::BTreeSet::new();
+                                typegen::model::collect_users(&f.ty, &mut other);
+                                k != fi && !mine.is_disjoint(&other)
+                            })
+                        }
+                        _ => false,
+                    };
                 if let (Some(f_decl), typegen::Body::Named(fs), false) = (outer_decl(fd, &fp.module, ti), &np.module.types[ti].body, self_ref) {
                     if let (Some(f_parsed), TyExpr::User(u, _)) = (tsmodel::parse_module(&f_decl).ok().and_then(|m| m.decls.into_iter().next()), &fs[fi].ty) {
                         let f_env = env_of(fd);
